@@ -156,6 +156,16 @@ class Rec:
                  "extra")
 
 
+def _wrong_size(n, d):
+    """A size that is not n: n + d, or (d = "blk8192" / "blk4096" / "blk65536") the largest multiple of that block size below n -
+    a prefix of whole read buffers."""
+    if isinstance(d, str) and d.startswith("blk"):
+        b = int(d[3:])
+        k = (n - 1) // b * b
+        return k if 0 < k < n else n - 1 if n > 1 else n + 1
+    return n + d
+
+
 class ShortReads(io.BufferedIOBase):
     """Seekable in-memory stream that hands out at most 1500 bytes per read()."""
 
@@ -399,7 +409,7 @@ class Run:
                     if size_mode == "right":
                         sz = n
                     else:
-                        sz = max(1, n + op.get("dsize", 1))
+                        sz = max(1, _wrong_size(n, op.get("dsize", 1)))
                         if sz == n:
                             sz = n + 1
                     if sz >= 1:
@@ -494,7 +504,7 @@ class Run:
                 elif size_mode == "right":
                     sz, size_ok = n, True
                 else:
-                    sz = max(1, n + op.get("dsize", 1))
+                    sz = max(1, _wrong_size(n, op.get("dsize", 1)))
                     if sz == n:
                         sz = n + 1
                     size_ok = False
